@@ -880,6 +880,7 @@ type indexAccess struct {
 	stores  map[string][]token.Pos // map field -> positions of stores that are not `!ok` materialisations
 	mater   map[string][]token.Pos // materialising stores (inside the miss branch of a lookup of the same map and key)
 	lookups map[string][]token.Pos
+	alias   map[string][]token.Pos // subset of stores: the stored value is an entry of the same map (no new object)
 }
 
 func (c *Ctx) indexAccesses() map[*types.Func]*indexAccess {
@@ -889,7 +890,7 @@ func (c *Ctx) indexAccesses() map[*types.Func]*indexAccess {
 	out := map[*types.Func]*indexAccess{}
 	c.eachFunc(pkgASM, func(p *packages.Package, fd *ast.FuncDecl, fn *types.Func) {
 		info := p.TypesInfo
-		ia := &indexAccess{stores: map[string][]token.Pos{}, mater: map[string][]token.Pos{}, lookups: map[string][]token.Pos{}}
+		ia := &indexAccess{stores: map[string][]token.Pos{}, mater: map[string][]token.Pos{}, lookups: map[string][]token.Pos{}, alias: map[string][]token.Pos{}}
 		pm := buildParents(fd.Body)
 		isIndexMap := func(x ast.Expr) (string, bool) {
 			if _, ok := info.TypeOf(x).Underlying().(*types.Map); !ok {
@@ -943,6 +944,21 @@ func (c *Ctx) indexAccesses() map[*types.Func]*indexAccess {
 				}
 				if !mat && reachedOnlyOnMiss(pm, as, ix) {
 					mat = true
+				}
+				// an alias store copies an entry that already exists in the same map
+				// (m[a] = m[b], or t, ok := m[b]; …; m[a] = t): it creates no object
+				if len(as.Rhs) == 1 && !mat {
+					rhs := unparen(as.Rhs[0])
+					if id, ok := rhs.(*ast.Ident); ok {
+						for _, d := range collectDefs(info, fd.Body)[info.ObjectOf(id)] {
+							if ix2, ok := unparen(d).(*ast.IndexExpr); ok && exprString(ix2.X) == exprString(ix.X) {
+								rhs = ix2
+							}
+						}
+					}
+					if ix2, ok := rhs.(*ast.IndexExpr); ok && exprString(ix2.X) == exprString(ix.X) {
+						ia.alias[m] = append(ia.alias[m], as.Pos())
+					}
 				}
 				if mat {
 					ia.mater[m] = append(ia.mater[m], as.Pos())
@@ -1054,7 +1070,15 @@ func ruleIDXONCE(c *Ctx) []Obligation {
 				continue
 			}
 			for _, p := range ps {
-				sites[m] = append(sites[m], site{fn, p})
+				isAlias := false
+				for _, ap := range ia.alias[m] {
+					if ap == p {
+						isAlias = true
+					}
+				}
+				if !isAlias {
+					sites[m] = append(sites[m], site{fn, p})
+				}
 			}
 		}
 		for m, ps := range ia.mater {
